@@ -114,3 +114,121 @@ Theorem C12_moment_slot_additive_real :
     = mk (fun n : nat => @mexp n) a S (rset Rs j X) k t + mk (fun n : nat => @mexp n) a S (rset Rs j Y) k t.
 Proof. exact: real_mk_additive_slot. Qed.
 Print Assumptions C12_moment_slot_additive_real.
+
+(* ------------------------------------------------------------------------------------------------
+   The same decompositions stated DIRECTLY about the translated source, on ANY piecewise-constant
+   demography (any number of epochs) - analysis/SourceLinear.v, analysis/SourceCovariance.v.
+
+   [expm] is any backend that computes the real matrix exponential on the matrices it is given; [regf] is
+   _get_regularization_factor (any non-zero value); Ss / Slast are the rate matrices of the epochs; the
+   functions are those of gen/LoopsGen.v (_accumulate), gen/MomentsGen.v (accumulate: centring and
+   permutation average) and gen/RewardsGen.v (the reward vectors), all regenerated from the source on every run.
+
+   C12_source_first_moment_linear      _accumulate of order 1 is linear in the reward
+   C12_source_moment_slot_linear       _accumulate of order k is linear in each of its k rewards
+   C12_source_deme_means_sum_to_mean   the per-deme marginal means of ANY reward sum to its mean
+   C12_source_locus_*_means_sum        per-locus branch lengths / heights sum to the totals
+   C12_source_deme_covariances_sum_to_variance
+                                       the entries of the covariance matrix across demes (get_cov: centred,
+                                       permutation-averaged second cross moments) sum to the variance           *)
+From PG Require Import base.Ops base.OpsR model.Loop analysis.Denote gen.NpLoops analysis.SourceLinear analysis.SourceCovariance.
+Local Notation Q0 := (QArith_base.Qmake BinNums.Z0 BinNums.xH).
+
+Theorem C12_source_first_moment_linear :
+  forall (expm : seq (seq R) -> seq (seq R)),
+    (forall n A, wf n n A -> wf n n (expm A) /\ mx_of n n (expm A) = mexp (mx_of n n A)) ->
+  forall (regf : seq (seq R) -> R) (n : nat) (Ss : seq (QArith_base.Q * seq (seq R))) (Slast : seq (seq R)) (alpha : seq R)
+         (ts : seq QArith_base.Q) (r1 r2 : seq R) (c1 c2 : R),
+    regf (List.hd (None, Slast) (all_epochs Ss Slast)).2 <> 0 ->
+    List.Forall (fun x : QArith_base.Q * seq (seq R) => wf n n x.2) Ss -> wf n n Slast ->
+    size r1 = n -> size r2 = n ->
+    epochs_wf (seq (seq R)) Q0 Ss -> List.Forall (fun t => QArith_base.Qle Q0 t) ts ->
+    acc1 expm regf Ss Slast alpha ts (Matrix.vadd OpsR (Matrix.vscale OpsR c1 r1) (Matrix.vscale OpsR c2 r2))
+    = Matrix.vadd OpsR (Matrix.vscale OpsR c1 (acc1 expm regf Ss Slast alpha ts r1))
+                       (Matrix.vscale OpsR c2 (acc1 expm regf Ss Slast alpha ts r2)).
+Proof. exact: source_first_moment_linear. Qed.
+Print Assumptions C12_source_first_moment_linear.
+
+Theorem C12_source_moment_slot_linear :
+  forall (expm : seq (seq R) -> seq (seq R)),
+    (forall n A, wf n n A -> wf n n (expm A) /\ mx_of n n (expm A) = mexp (mx_of n n A)) ->
+  forall (regf : seq (seq R) -> R) (n : nat) (Ss : seq (QArith_base.Q * seq (seq R))) (Slast : seq (seq R)) (alpha : seq R)
+         (ts : seq QArith_base.Q),
+    regf (List.hd (None, Slast) (all_epochs Ss Slast)).2 <> 0 ->
+    List.Forall (fun x : QArith_base.Q * seq (seq R) => wf n n x.2) Ss -> wf n n Slast ->
+    epochs_wf (seq (seq R)) Q0 Ss -> List.Forall (fun t => QArith_base.Qle Q0 t) ts ->
+  forall (k j : nat) (Rs : seq (seq R)) (r1 r2 : seq R) (c1 c2 : R),
+    (j < k)%N -> (forall i, (i < k)%N -> i != j -> size (nth [::] Rs i) = n) -> size r1 = n -> size r2 = n ->
+    acck expm regf Ss Slast alpha ts k (set_nth [::] Rs j (Matrix.vadd OpsR (Matrix.vscale OpsR c1 r1) (Matrix.vscale OpsR c2 r2)))
+    = Matrix.vadd OpsR (Matrix.vscale OpsR c1 (acck expm regf Ss Slast alpha ts k (set_nth [::] Rs j r1)))
+                       (Matrix.vscale OpsR c2 (acck expm regf Ss Slast alpha ts k (set_nth [::] Rs j r2))).
+Proof. move=> expm es regf n Ss Slast alpha ts; exact: source_moment_slot_linear. Qed.
+Print Assumptions C12_source_moment_slot_linear.
+
+Theorem C12_source_deme_means_sum_to_mean :
+  forall (expm : seq (seq R) -> seq (seq R)),
+    (forall n A, wf n n A -> wf n n (expm A) /\ mx_of n n (expm A) = mexp (mx_of n n A)) ->
+  forall (regf : seq (seq R) -> R) (n : nat) (Ss : seq (QArith_base.Q * seq (seq R))) (Slast : seq (seq R)) (alpha : seq R)
+         (ts : seq QArith_base.Q),
+    regf (List.hd (None, Slast) (all_epochs Ss Slast)).2 <> 0 ->
+    List.Forall (fun x : QArith_base.Q * seq (seq R) => wf n n x.2) Ss -> wf n n Slast ->
+    epochs_wf (seq (seq R)) Q0 Ss -> List.Forall (fun t => QArith_base.Qle Q0 t) ts ->
+  forall (nn nl nd : nat) (r : reward) (sts : seq state),
+    size sts = n -> reward_ok nn r = true ->
+    List.Forall (fun s => n_loci s = nl) sts ->
+    List.Forall (fun s => n_demes s = nd /\ (1 <= total_lineages s)%coq_nat /\
+                          List.Forall (fun loc => length loc = n_demes s) (lin s)) sts ->
+    acc1 expm regf Ss Slast alpha ts [seq gen_reward_get OpsR nn nl r s | s <- sts]
+    = vsum (size ts) [seq acc1 expm regf Ss Slast alpha ts [seq gen_reward_get OpsR nn nl (RProduct [:: r; RDeme d]) s | s <- sts]
+                     | d <- iota 0 nd].
+Proof. move=> expm es regf n Ss Slast alpha ts; exact: source_deme_means_sum_to_mean. Qed.
+Print Assumptions C12_source_deme_means_sum_to_mean.
+
+Theorem C12_source_locus_branch_length_means_sum :
+  forall (expm : seq (seq R) -> seq (seq R)),
+    (forall n A, wf n n A -> wf n n (expm A) /\ mx_of n n (expm A) = mexp (mx_of n n A)) ->
+  forall (regf : seq (seq R) -> R) (n : nat) (Ss : seq (QArith_base.Q * seq (seq R))) (Slast : seq (seq R)) (alpha : seq R)
+         (ts : seq QArith_base.Q),
+    regf (List.hd (None, Slast) (all_epochs Ss Slast)).2 <> 0 ->
+    List.Forall (fun x : QArith_base.Q * seq (seq R) => wf n n x.2) Ss -> wf n n Slast ->
+    epochs_wf (seq (seq R)) Q0 Ss -> List.Forall (fun t => QArith_base.Qle Q0 t) ts ->
+  forall (nn nl : nat) (sts : seq state),
+    size sts = n -> List.Forall (fun s => n_loci s = nl) sts ->
+    acc1 expm regf Ss Slast alpha ts [seq gen_reward_get OpsR nn nl RTotalBranchLength s | s <- sts]
+    = vsum (size ts) [seq acc1 expm regf Ss Slast alpha ts [seq gen_reward_get OpsR nn nl (RTBLLocus l) s | s <- sts] | l <- iota 0 nl].
+Proof. move=> expm es regf n Ss Slast alpha ts; exact: source_locus_branch_length_means_sum. Qed.
+Print Assumptions C12_source_locus_branch_length_means_sum.
+
+Theorem C12_source_locus_height_means_sum :
+  forall (expm : seq (seq R) -> seq (seq R)),
+    (forall n A, wf n n A -> wf n n (expm A) /\ mx_of n n (expm A) = mexp (mx_of n n A)) ->
+  forall (regf : seq (seq R) -> R) (n : nat) (Ss : seq (QArith_base.Q * seq (seq R))) (Slast : seq (seq R)) (alpha : seq R)
+         (ts : seq QArith_base.Q),
+    regf (List.hd (None, Slast) (all_epochs Ss Slast)).2 <> 0 ->
+    List.Forall (fun x : QArith_base.Q * seq (seq R) => wf n n x.2) Ss -> wf n n Slast ->
+    epochs_wf (seq (seq R)) Q0 Ss -> List.Forall (fun t => QArith_base.Qle Q0 t) ts ->
+  forall (nn nl : nat) (sts : seq state),
+    size sts = n -> List.Forall (fun s => n_loci s = nl) sts ->
+    acc1 expm regf Ss Slast alpha ts [seq gen_reward_get OpsR nn nl RTotalTreeHeight s | s <- sts]
+    = vsum (size ts) [seq acc1 expm regf Ss Slast alpha ts [seq gen_reward_get OpsR nn nl (RLocus l) s | s <- sts] | l <- iota 0 nl].
+Proof. move=> expm es regf n Ss Slast alpha ts; exact: source_locus_height_means_sum. Qed.
+Print Assumptions C12_source_locus_height_means_sum.
+
+Theorem C12_source_deme_covariances_sum_to_variance :
+  forall (expm : seq (seq R) -> seq (seq R)),
+    (forall n A, wf n n A -> wf n n (expm A) /\ mx_of n n (expm A) = mexp (mx_of n n A)) ->
+  forall (n : nat) (Ss : seq (QArith_base.Q * seq (seq R))) (Slast : seq (seq R)) (alpha : seq R) (lam : R) (t : QArith_base.Q),
+    lam <> 0 ->
+    List.Forall (fun x : QArith_base.Q * seq (seq R) => wf n n x.2) Ss -> wf n n Slast ->
+    epochs_wf (seq (seq R)) Q0 Ss -> QArith_base.Qle Q0 t ->
+  forall (self_reward : seq R) (nn nl nd : nat) (r : reward) (sts : seq state),
+    size sts = n -> reward_ok nn r = true ->
+    List.Forall (fun s => n_loci s = nl) sts ->
+    List.Forall (fun s => n_demes s = nd /\ (1 <= total_lineages s)%coq_nat /\
+                          List.Forall (fun loc => length loc = n_demes s) (lin s)) sts ->
+    let rv x := [seq gen_reward_get OpsR nn nl x s | s <- sts] in
+    \sum_(p <- iota 0 nd) \sum_(q <- iota 0 nd)
+       src_cov expm Ss Slast alpha lam t self_reward (rv (RProduct [:: r; RDeme p])) (rv (RProduct [:: r; RDeme q]))
+    = src_cov expm Ss Slast alpha lam t self_reward (rv r) (rv r).
+Proof. move=> expm es n Ss Slast alpha lam t l0 h1 h2 h5 t0 sr; exact: source_deme_covariances_sum_to_variance. Qed.
+Print Assumptions C12_source_deme_covariances_sum_to_variance.
